@@ -172,8 +172,39 @@ def transcribed_cases(thorough=False):
                 yield {'name': name, 'ok': ok, 'detail': '' if ok else f"expected mid-widths {want[:6]} reported {w[:6]}"}
 
 
+def origin_point_cases():
+    """an isotherm that starts with a measured point at the origin (p = 0, n = 0): every later point keeps its own width, cumulative
+    volume and finite-difference distribution -- the result from the second bin on equals the result for the data without that point"""
+    import warnings
+    import pygaps
+    pygaps.logger.disabled = True
+    import pygaps.characterisation.psd_micro as PMi
+    from pygaps.characterisation.models_hk import get_hk_model
+    mat = get_hk_model('Carbon(HK)')
+    p = numpy.geomspace(1e-7, 0.1, 12)
+    n = numpy.linspace(0.8, 7.5, 12)
+    for model, f, kw in (('HK', PMi.psd_horvath_kawazoe, {}), ('HK-CY', PMi.psd_horvath_kawazoe, {'use_cy': True}), ('RY', PMi.psd_horvath_kawazoe_ry, {})):
+        for geom in ('slit', 'cylinder'):
+            name = f"leading_origin_point|{model}|{geom}"
+            try:
+                with warnings.catch_warnings():
+                    warnings.simplefilter('ignore')
+                    w0, d0, v0 = (numpy.asarray(x, dtype=float) for x in f(p, n, 77.355, geom, ADS, mat, **kw))
+                    w1, d1, v1 = (numpy.asarray(x, dtype=float) for x in f(numpy.concatenate(([0.0], p)), numpy.concatenate(([0.0], n)), 77.355, geom, ADS, mat, **kw))
+                if len(w0) < 4:
+                    yield {'name': name, 'ok': True, 'detail': 'fewer than four widths inside the reporting range (no claim)'}
+                    continue
+                k = len(w0)
+                ok = len(w1) >= k and numpy.allclose(w1[-k:], w0, rtol=1e-6) and numpy.allclose(v1[-k:], v0, rtol=1e-9) and numpy.allclose(d1[-k + 1:], d0[1:], rtol=1e-5)
+                detail = '' if ok else f"without the origin point: widths {w0[:4]} volumes {v0[:4]}; with it: widths {w1[:5]} volumes {v1[:5]}"
+            except Exception as exc:
+                ok, detail = False, f"{type(exc).__name__}: {exc}"[:160]
+            yield {'name': name, 'ok': bool(ok), 'detail': detail}
+
+
 def bounded_cases(seed, thorough=False):
     yield from transcribed_cases(thorough)
+    yield from origin_point_cases()
     import pygaps
     pygaps.logger.disabled = True
     import pygaps.characterisation.psd_micro as PMi
